@@ -313,7 +313,8 @@ def apply_edit(draw, s, kind, uid, protected=None):
             return None
         i = draw(st.sampled_from(ifaces))
         if kind == "add-interface-implementation":
-            cands = [o for o in objs if i not in types[o].get("interfaces", [])]
+            # types added by this very diff are not edited again (their addition is the reported change)
+            cands = [o for o in objs if i not in types[o].get("interfaces", []) and o not in protected_added]
             if not cands:
                 return None
             o = draw(st.sampled_from(cands))
@@ -375,9 +376,9 @@ def _default_edit(draw, s, a, out, classes, tokens):
     if GS.named(t) not in GS.BUILTIN_SCALARS:
         return None
     if "default" in a and draw(st.booleans()):
-        del a["default"]
         if t[0] == "nn":
             return None
+        del a["default"]
         return out(classes, tokens, False)
     new = GS.gen_nonnull(draw, s, t, 1)
     if t[0] != "nn" and draw(st.integers(0, 3)) == 0:
@@ -572,6 +573,8 @@ def cases(draw):
             continue
         if e:
             edits.extend(e if isinstance(e, list) else [e])
+        else:
+            new = GS.Spec(backup)   # an edit that turned out not to apply must not leave a half-made change behind
     ops = [draw(GD.requests(GS.Spec(old), multi_op=False))["text"] for _ in range(2)] if edits else []
     return {"old": old, "new": json.loads(json.dumps(new)), "edits": edits, "operations": ops,
             "mode_old": draw(st.sampled_from(["sdl", "code"])), "mode_alt": draw(st.sampled_from(["sdl", "code"])),
